@@ -2,7 +2,7 @@
    Model: Model/CallGraph.v instantiated with the call graph and guard set regenerated from SSA. *)
 From Coq Require Import List NArith Bool Arith.
 From GV Require Import Model.Walk Model.CallGraph Proofs.CallGraphP Gen.CallGraphTable Inst.Inst_C02.
-From GV Require Import Gen.LexTables Model.Lexer Proofs.LexerP.
+From GV Require Import Gen.LexTables Model.Lexer Proofs.LexerP Inst.Inst_C04 Spec.LexSpec Proofs.LexFaithP.
 Import ListNotations.
 
 (* every call stack of the parser that can arise when the depth counter starts at 0 — a path in the static
@@ -44,8 +44,18 @@ Theorem C02_token_limit_bound_partial :
   (N.of_nat (length toks) <= max_tok + 1)%N.
 Proof. exact token_limit_bound. Qed.
 
+(* the token limit as an equivalence, for every text of the reference lexical grammar (Spec/LexSpec.v, every lexeme
+   class and separator): the dedicated error E1007 exactly when the text has more tokens than the limit, so a text
+   with exactly max_tok tokens is not rejected for that reason *)
+Theorem C02_token_limit_iff :
+  forall max_in max_tok ls seps, wf ls seps -> (N.of_nat (length (interleave ls seps)) <= max_in)%N ->
+  ((exists l c, tokenize_with max_in max_tok (interleave ls seps) = Err E_TokenLimitReached l c) <->
+   (max_tok < N.of_nat (length (raw_tokens ls seps)))%N).
+Proof. exact token_limit_iff. Qed.
+
 Print Assumptions C02_parser_stack_bounded.
 Print Assumptions C02_tokenizer_stack_bounded.
 Print Assumptions C02_size_limit.
 Print Assumptions C02_size_limit_exact.
 Print Assumptions C02_token_limit_bound_partial.
+Print Assumptions C02_token_limit_iff.
